@@ -6,6 +6,7 @@ CONSTANTS
   MaxElems = 2
   RefMax = 4
   MaxOutputs = 2
+INVARIANT ValidImpliesSafe
 INVARIANT ModelTotal
 INVARIANT Emit
 CHECK_DEADLOCK FALSE
